@@ -221,6 +221,12 @@ class _Shape(ast.NodeTransformer):
 
     def visit_If(self, node):
         self.generic_visit(node)
+        # an arm that only holds `pass` is no arm
+        if node.orelse and all(isinstance(x, ast.Pass) for x in node.orelse):
+            node.orelse = []
+        if node.orelse and all(isinstance(x, ast.Pass) for x in node.body):
+            node.test = negate(node.test)
+            node.body, node.orelse = node.orelse, []
         if not node.orelse and len(node.body) == 1 and isinstance(node.body[0], ast.If) and not node.body[0].orelse:
             inner = node.body[0]
             vals = []
@@ -1262,6 +1268,16 @@ def _candidates_all(f, ref_assigns=(), ref_locals=(), changed=None, ref_params=N
                 x, y = st.body[0], b[i + 1]
                 if isinstance(x, ast.Return) and isinstance(y, ast.Return) and x.value is not None:
                     yield ('ret_pair_to_ifexp', bi, i)
+            # `xs.pop(i)` whose result is dropped  <->  `del xs[i]`
+            if isinstance(st, ast.Expr) and isinstance(st.value, ast.Call) and isinstance(st.value.func, ast.Attribute) and st.value.func.attr == 'pop' \
+                    and len(st.value.args) == 1 and not st.value.keywords and _plain(st.value.func.value):
+                yield ('pop_to_del', bi, i)
+            if isinstance(st, ast.Delete) and len(st.targets) == 1 and isinstance(st.targets[0], ast.Subscript) and _plain(st.targets[0].value) \
+                    and not isinstance(st.targets[0].slice, ast.Slice):
+                yield ('del_to_pop', bi, i)
+            # the last statement of a loop body `if c: A`  ->  `if not c: continue` A
+            if isinstance(st, ast.If) and not st.orelse and i == len(b) - 1 and any(isinstance(n_, (ast.For, ast.While, ast.AsyncFor)) and n_.body is b for n_ in own_nodes(f)):
+                yield ('guard_loop', bi, i)
             # `if a or b: T`  <->  `if a: T` `if b: T`   (T a lone terminator)
             if isinstance(st, ast.If) and not st.orelse and len(st.body) == 1 and isinstance(st.body[0], (ast.Return, ast.Raise, ast.Continue, ast.Break)):
                 if isinstance(st.test, ast.BoolOp) and isinstance(st.test.op, ast.Or):
@@ -1729,6 +1745,19 @@ def _apply(f, cand, ref_assigns=()):
         x, y = st.body[0], st.orelse[0]
         e = ast.IfExp(test=st.test, body=x.value, orelse=y.value)
         b[i] = ast.Assign(targets=x.targets, value=e) if isinstance(x, ast.Assign) else ast.Return(value=e)
+    elif kind == 'pop_to_del':
+        c = st.value
+        b[i] = ast.Delete(targets=[ast.Subscript(value=c.func.value, slice=c.args[0], ctx=ast.Del())])
+    elif kind == 'del_to_pop':
+        t = st.targets[0]
+        v = _copy.deepcopy(t.value)
+        for x in ast.walk(v):
+            if hasattr(x, 'ctx'):
+                x.ctx = ast.Load()
+        b[i] = ast.Expr(value=ast.Call(func=ast.Attribute(value=v, attr='pop', ctx=ast.Load()), args=[t.slice], keywords=[]))
+    elif kind == 'guard_loop':
+        body = st.body
+        b[i:i + 1] = [ast.If(test=_negate_full(st.test), body=[ast.Continue()], orelse=[])] + body
     elif kind == 'split_or':
         parts = st.test.values
         b[i:i + 1] = [ast.If(test=v, body=[_copy.deepcopy(st.body[0])], orelse=[]) for v in parts]
